@@ -414,7 +414,7 @@ class Engine:
     def load_field(self, st: State, obj_term, fname: str, pycls=None):
         a = V.Val.a(obj_term)
         arr = st.field_array(fname)
-        if fname in self.shared_fields and not self._lock_held(st, obj_term, fname):
+        if self._shared(fname, pycls) and not self._lock_held(st, obj_term, fname):
             # monitor-owned field read outside its lock: any value another thread may have written
             spec = self.shared_fields[fname]
             v = V.fresh_val(f"racy_{fname}")
@@ -447,7 +447,7 @@ class Engine:
 
     def store_field(self, st: State, obj_term, fname: str, val_term, pycls=None, line=0):
         a = V.Val.a(obj_term)
-        if fname in self.shared_fields and not self._lock_held(st, obj_term, fname):
+        if self._shared(fname, pycls) and not self._lock_held(st, obj_term, fname):
             spec = self.shared_fields[fname]
             if not spec.get("init_ok") or not self._is_local(st, obj_term):
                 self.oblige(st, f"lock discipline: store to {fname} outside its lock", z3.BoolVal(False), "lock", line)
@@ -459,7 +459,7 @@ class Engine:
                     fact = r[0] if isinstance(r, tuple) else r
                     self.oblige(st, f"type invariant of {c.__name__}.{fname} on store", fact, "typeinv", line)
                     break
-        if fname in self.shared_fields and self.shared_fields[fname].get("on_store") and not self._unpublished(st, obj_term):
+        if self._shared(fname, pycls) and self.shared_fields[fname].get("on_store") and not self._unpublished(st, obj_term):
             self.shared_fields[fname]["on_store"](self, st, obj_term, fname, val_term)
         st.heap[fname] = z3.Store(st.field_array(fname), a, val_term)
         self.escape(st, val_term)
@@ -471,10 +471,21 @@ class Engine:
         t = z3.simplify(obj_term)
         return z3.is_app(t) and t.decl().name() == "ref" and z3.is_int_value(t.arg(0)) and t.arg(0).as_long() in st.local_objs
 
+    def _shared(self, fname, pycls):
+        spec = self.shared_fields.get(fname)
+        if spec is None:
+            return False
+        cls = spec.get("cls")
+        if cls is None:
+            return True
+        return pycls is not None and issubclass(pycls, cls)
+
     def _lock_held(self, st, obj_term, fname):
         spec = self.shared_fields[fname]
         if self._is_local(st, obj_term) and z3.simplify(V.Val.a(obj_term)).as_long() not in st.escaped:
             return True  # object under construction, not yet published
+        if spec.get("held") is not None:
+            return spec["held"](self, st, obj_term)
         for (lk_obj, lk_name) in st.locks:
             if lk_name == spec["lock"] and z3.eq(z3.simplify(lk_obj), z3.simplify(obj_term)):
                 return True
